@@ -84,6 +84,9 @@ def InRange (p : ElasticNet.Params) : Prop := nonneg p.penalty ∧ unit01 p.l1_r
 def Finite (p : ElasticNet.Params) : Prop := p.penalty.Finite ∧ p.l1_ratio.Finite ∧ p.tolerance.Finite
 instance (p) : Decidable (InRange p) := by unfold InRange; infer_instance
 instance (p) : Decidable (Finite p) := by unfold Finite; infer_instance
+/-- the builder's parameter table (hyperparams.rs:77-83) also gives `max_iterations` the range `[1, inf)`; no guard
+reads that field, so it is not part of the translated `Params`: the full documented range takes it as an argument -/
+def DocRange (p : ElasticNet.Params) (max_iterations : Nat) : Prop := InRange p ∧ 1 ≤ max_iterations
 end ElasticNet
 
 namespace Logistic
